@@ -41,6 +41,97 @@ def load(modname):
     return mod
 
 
+class StepBudget(BaseException):
+    """Raised inside the library code of a case that went on for millions of loop iterations / calls after its
+    (generous) wall-clock allowance had already passed: it does not terminate."""
+
+
+class LoopGuard(object):
+    """Non-termination detector for single-threaded cases.  Costs nothing while cases finish in time: a wall-clock
+    timer is armed per case; only when it fires (the case has been running for `seconds`) are sys.monitoring JUMP
+    and PY_START events switched on for the code objects of the boltons modules in use, and the verdict is then a
+    LOGICAL one - `steps` further loop back-edges / calls inside the library without the case finishing.  A case that
+    is merely slow on a loaded machine finishes long before that and is not judged."""
+    TOOL = 3
+
+    def __init__(self, seconds=90.0, steps=30000000):
+        self.seconds, self.steps = seconds, steps
+        self.count = 0
+        self.active = False
+        self.fired = 0
+        self.ok = hasattr(sys, 'monitoring')
+        self.installed = False
+
+    def _codes(self):
+        from checks import sched
+        out = []
+        for m in list(_loaded.values()):
+            out.extend(sched.code_objects_of(m))
+        return out
+
+    def _on_event(self, *a):
+        self.count += 1
+        if self.count > self.steps:
+            self.count = 0
+            self._monitor_off()
+            raise StepBudget('%d loop iterations / calls inside the library after %ds without finishing'
+                             % (self.steps, self.seconds))
+
+    def _monitor_on(self):
+        mon = sys.monitoring
+        try:
+            mon.use_tool_id(self.TOOL, 'verif-loopguard')
+        except ValueError:
+            pass
+        ev = mon.events.JUMP | mon.events.PY_START
+        mon.register_callback(self.TOOL, mon.events.JUMP, self._on_event)
+        mon.register_callback(self.TOOL, mon.events.PY_START, self._on_event)
+        self._mon_codes = self._codes()
+        for c in self._mon_codes:
+            mon.set_local_events(self.TOOL, c, ev)
+        self.active = True
+
+    def _monitor_off(self):
+        if not self.active:
+            return
+        mon = sys.monitoring
+        for c in getattr(self, '_mon_codes', ()):
+            try:
+                mon.set_local_events(self.TOOL, c, 0)
+            except Exception:
+                pass
+        try:
+            mon.free_tool_id(self.TOOL)
+        except Exception:
+            pass
+        self.active = False
+
+    def _alarm(self, signum, frame):
+        self.fired += 1
+        self.count = 0
+        if self.ok:
+            self._monitor_on()
+
+    def arm(self):
+        import signal
+        import threading
+        if not self.ok or threading.current_thread() is not threading.main_thread():
+            return
+        if not self.installed:
+            signal.signal(signal.SIGALRM, self._alarm)
+            self.installed = True
+        signal.setitimer(signal.ITIMER_REAL, self.seconds)
+
+    def disarm(self):
+        import signal
+        if self.installed:
+            signal.setitimer(signal.ITIMER_REAL, 0)
+        self._monitor_off()
+
+
+LOOP_GUARD = LoopGuard()
+
+
 def base_seed():
     try:
         return int(os.environ.get('VERIF_SEED', '0'))
